@@ -24,15 +24,25 @@ def f64MinPos : Q := Q.mulPow2 ⟨1, 1⟩ (-1022)
 
 /-- the property for `to_f64` on decimal `x` with returned bit pattern `bits` -/
 def toF64OK (x : Dec) (bits : Nat) : Bool × String :=
-  let xq := Q.ofDec x
-  let ax := xq.abs
   let negBit := bits / 2 ^ 63 == 1
   let expo := (bits / 2 ^ 52) % 2 ^ 11
   let frac := bits % 2 ^ 52
+  -- |x| < 10^top and |x| ≥ 10^(top-1): classifies magnitudes far outside the f64 range without
+  -- ever forming 10^|scale| for an extreme scale
+  let top : Int := (Spec.numDigits x.int.natAbs : Int) - x.scale
   if x.int == 0 then (bits == 0, "zero must give +0.0")
   else if expo == 2047 && frac != 0 then (false, "NaN")
   else if negBit != decide (x.int < 0) && !(expo == 0 && frac == 0) then (false, "wrong sign")
-  else if expo == 2047 then
+  else if top ≤ -400 then
+    -- far below the smallest subnormal (4.9e-324): zero or one subnormal step
+    (expo == 0 && frac ≤ 1, "a magnitude below 1e-400 must underflow to zero (or one subnormal step)")
+  else if top ≥ 401 then
+    -- far above the largest finite f64 (1.8e308): infinity (or the largest finite float)
+    (expo == 2047 || (expo == 2046 && frac == 2 ^ 52 - 1), "a magnitude above 1e400 must give infinity")
+  else
+  let xq := Q.ofDec x
+  let ax := xq.abs
+  if expo == 2047 then
     -- infinity only beyond, or within 2^-48 of, the largest finite f64
     (Q.le (Q.sub f64Max (Q.mulPow2 f64Max (-48))) ax, "infinite result for a value well inside the finite range")
   else
@@ -90,7 +100,7 @@ def handle (op : String) (args : List String) (impl : String) : Verdict :=
         | some bits =>
           let (ok, why) := toF64OK x bits
           { model := "", mi := ok, si := ok, note := if ok then "" else why,
-            tag := "tof64" ++ (if x.scale == 0 then ":int" else if (x.scale.natAbs > 330) then ":extreme" else ":frac"),
+            tag := "tof64" ++ (if x.scale == 0 then ":int" else if x.scale.natAbs ≥ 2 ^ 31 - 64 then ":beyond-i32" else if (x.scale.natAbs > 330) then ":extreme" else ":frac"),
             trivial := x.int == 0 }
         | none => badInput "tof64 impl"
     | none => badInput "tof64 args"
